@@ -329,4 +329,113 @@ Section WithI2F.
       repeat match goal with |- context [Nat.eqb ?a ?b] => destruct (Nat.eqb_spec a b) end;
       split; intros H; try discriminate; try exact I; try reflexivity; try contradiction; try lia.
   Qed.
+
+  (* ---------- histories: any accepted sequence of rows ---------- *)
+  Definition cellc (d : coldata) (c : option anyval) : cell :=
+    match c with None => XNone | Some v => cell_of d v end.
+
+  Definition is_stringy (d : coldata) : bool := match d with CString _ => true | _ => false end.
+
+  (* the values a buffer of this kind can have accepted so far *)
+  Definition okcell (d : coldata) (c : option anyval) : Prop :=
+    match c with
+    | None | Some VNull => True
+    | Some (VInt _) => is_inty d = true \/ is_floaty d = true
+    | Some (VFloat _) => is_floaty d = true
+    | Some (VStr _) => is_stringy d = true
+    end.
+
+  Definition Rep (d : coldata) (prefix : list (option anyval)) : Prop :=
+    wf d (length prefix) /\ denote d (length prefix) = map (cellc d) prefix /\ Forall (okcell d) prefix /\
+    (match d with CMixed _ => False | _ => True end).
+
+  (* kinds only move forward: empty -> anything, int -> int|float, float -> float, string -> string *)
+  Definition kind_step (d d' : coldata) : Prop :=
+    (is_floaty d = true -> is_floaty d' = true) /\
+    (is_inty d = true -> is_inty d' = true \/ is_floaty d' = true) /\
+    (is_stringy d = true -> is_stringy d' = true) /\
+    (match d' with CMixed _ => False | CEmpty => d = CEmpty | _ => True end).
+
+  Lemma push_kind d v len d' :
+    (match d with CMixed _ => False | _ => True end) ->
+    push d v len = Pushed d' -> kind_step d d' /\ okcell d' (Some v).
+  Proof.
+    intros Hm. destruct v as [i|f|s|]; destruct d as [|data|data|data|data|data|data];
+      cbn [push push_float]; try contradiction; try discriminate;
+      repeat match goal with |- context [Nat.eqb ?a ?b] => destruct (Nat.eqb a b) end;
+      intros E; try discriminate; injection E as <-; unfold kind_step; cbn; repeat split; auto;
+      try (intros; discriminate); try tauto.
+  Qed.
+
+  Lemma okcell_mono d d' c : kind_step d d' -> okcell d c -> okcell d' c.
+  Proof.
+    intros (Hf & Hi & Hs & _) H. destruct c as [[i|f|s|]|]; cbn in *; auto.
+    destruct H as [H|H]; auto.
+  Qed.
+
+  Lemma degrade_cellc d d' c : kind_step d d' -> okcell d c ->
+    degrade d d' (cellc d c) = cellc d' c.
+  Proof.
+    intros (Hf & Hi & Hs & _) H. unfold degrade.
+    destruct c as [[i|f|s|]|]; cbn [cellc cell_of okcell] in *;
+      try (destruct (is_inty d && is_floaty d'); reflexivity).
+    destruct H as [H|H].
+    - (* was an int column *)
+      assert (Hnf : is_floaty d = false) by (destruct d; cbn in *; congruence).
+      rewrite Hnf, H. cbn [andb].
+      destruct (is_floaty d') eqn:E; reflexivity.
+    - rewrite H, (Hf H).
+      assert (Hni : is_inty d = false) by (destruct d; cbn in *; congruence).
+      rewrite Hni. reflexivity.
+  Qed.
+
+  Lemma Rep_step d prefix c d' :
+    Rep d prefix ->
+    match c with None => Pushed d | Some v => push d v (length prefix) end = Pushed d' ->
+    Rep d' (prefix ++ [c]).
+  Proof.
+    intros (Hwf & Hden & Hok & Hm) E. unfold Rep. rewrite app_length. cbn [length]. rewrite Nat.add_1_r.
+    destruct c as [v|].
+    - destruct (push_kind d v _ d' Hm E) as [Hk Hv].
+      destruct (push_ok d v _ d' Hwf E) as [Hwf' Hden'].
+      split; [exact Hwf'|]. split; [|split].
+      + rewrite Hden', Hden, map_map, map_app. cbn [map cellc]. f_equal.
+        apply map_ext_in. intros a Ha. apply degrade_cellc; [exact Hk|].
+        rewrite Forall_forall in Hok. auto.
+      + apply Forall_app. split.
+        * eapply Forall_impl; [|exact Hok]. intros a. apply okcell_mono. exact Hk.
+        * constructor; [exact Hv|constructor].
+      + destruct Hk as (_ & _ & _ & Hk). destruct d'; auto.
+    - injection E as <-. split; [apply wf_skip; exact Hwf|]. split; [|split].
+      + rewrite denote_skip by exact Hwf. rewrite Hden, map_app. reflexivity.
+      + apply Forall_app. split; [exact Hok|]. constructor; [exact I|constructor].
+      + exact Hm.
+  Qed.
+
+  Lemma push_rows_Rep : forall cells d prefix d',
+    Rep d prefix -> push_rows i2f d (length prefix) cells = Pushed d' -> Rep d' (prefix ++ cells).
+  Proof.
+    induction cells as [|c cells IH]; intros d prefix d' HR E.
+    - cbn in E. injection E as <-. rewrite app_nil_r. exact HR.
+    - cbn [push_rows] in E.
+      destruct (match c with None => Pushed d | Some v => push d v (length prefix) end) as [d1|] eqn:E1;
+        [|discriminate].
+      pose proof (Rep_step d prefix c d1 HR E1) as HR1.
+      replace (prefix ++ c :: cells) with ((prefix ++ [c]) ++ cells) by (rewrite <- app_assoc; reflexivity).
+      apply IH with d1; [exact HR1|].
+      rewrite app_length. cbn [length]. rewrite Nat.add_1_r. exact E.
+  Qed.
+
+  (* C16_event_rows: whatever sequence of rows the row API accepts, the column buffer it ends with
+     denotes exactly the pushed cells, row for row, with integers shown as floats iff the column
+     ended up a float column *)
+  Theorem push_rows_ok cells d' :
+    push_rows i2f CEmpty 0 cells = Pushed d' ->
+    denote d' (length cells) = map (cellc d') cells.
+  Proof.
+    intros E.
+    assert (HR : Rep CEmpty []) by (repeat split; constructor).
+    destruct (push_rows_Rep cells CEmpty [] d' HR E) as (_ & H & _). exact H.
+  Qed.
+
 End WithI2F.
